@@ -321,7 +321,7 @@ impl Check for C16 {
         let mut u = vec![json!({"prefix": [], "depth": 1, "len": 4, "on_death": "router-aborts-process"})];
         for (i, _) in a.iter().enumerate() {
             for (j, _) in a.iter().enumerate() {
-                u.push(json!({"prefix": [i, j], "depth": tier.pick(3, 4), "len": tier.pick(3, 4), "on_death": "router-aborts-process"}));
+                u.push(json!({"prefix": [i, j], "depth": tier.pick(3, 4), "len": 4, "on_death": "router-aborts-process"}));
             }
         }
         u
